@@ -11,9 +11,11 @@ STRINGS = [b'"a"', b'"b c"', b'"x@y.z"', b'"\\"q\\""', b'"back\\\\slash"', b'"[b
            # a line break inside AND an escaped quote / backslash at the very end; long items with blanks (what a line-wrapping or
            # a "looks quoted" test would get wrong)
            b'"first line\nthen \\"quoted\\""', b'"\\"\n\\""', b'"x\r\ny\\\\"', b'"travel and expenses for the month of march"',
-           b'"a rather long folder name / with several words in it"']
+           b'"a rather long folder name / with several words in it"',
+           # a byte order mark that opens a continuation line of a string is text
+           b'"line one\n\xef\xbb\xbfline two"', b'"\xef\xbb\xbf"']
 NUMBERS = [b"0", b"10", b"1K", b"2M", b"3g", b"100000", b"0K", b"00", b"007", b"010k", b"00G", b"1000000000000"]
-MULTI = [b"text:\nhello\n.\n", b"text:\r\nhi $x\r\n.\r\n", b"text:\n.x\n.\n", b"text:\n20% off %s\n.\n", b"text:\rhello\r.\n", b"text:\nline one\r.\r\n", b"text: # c\r\nx\r\n.\r\n"]
+MULTI = [b"text:\nhello\n.\n", b"text:\r\nhi $x\r\n.\r\n", b"text:\n.x\n.\n", b"text:\n20% off %s\n.\n", b"text:\rhello\r.\n", b"text:\nline one\r.\r\n", b"text: # c\r\nx\r\n.\r\n", b"text:\n\xef\xbb\xbfbom line\nplain\n\xef\xbb\xbf\xef\xbb\xbftwo\n.\n"]
 
 
 class Gen:
@@ -210,6 +212,17 @@ SEPS = [b" ", b"\n", b"\r\n", b"\t", b"  ", b" # c\n", b" /* c */ ", b"\n\n"]
 
 def render(tokens, r=None, style="space"):
     """join tokens; style 'space' = one blank, 'rand' = random separators (whitespace, comments, line endings)"""
+    if style in ("tight", "tightc"):
+        # no white space at all where two tokens cannot run into each other (a word character on both sides of the seam is the only
+        # case that needs a separator); 'tightc' glues with a bracket comment instead of nothing / a blank
+        word = lambda c: c.isalnum() or c == b"_"
+        out = bytearray()
+        for i, t in enumerate(tokens):
+            if i:
+                need = word(bytes(out[-1:])) and word(t[:1])
+                out += (b"/*c*/" if style == "tightc" else (b" " if need else b""))
+            out += t
+        return bytes(out)
     if style == "space" or r is None:
         return b" ".join(tokens)
     out = bytearray()
